@@ -22,9 +22,9 @@ class Concrete:
         if not os.path.exists(self.own):
             os.symlink(build["lib"], self.own)
         o = self.own.encode()
-        # FOR2 is a relative entry that starts with a non-ASCII byte (UTF-8)
-        self.atoms = {"OWN": o, "SP": b" ", "TAB": b"\t", "HASH": b"#", "FOR": b"/usr/lib/libfoo.so",
-                      "FOR2": b"\xc3\xa9toile/lib\xc3\xa9.so.2", "FSN": b"/opt/other/lib/libsnoopy.so", "PFX": o + b".1",
+        # FOR is a relative entry that starts with a non-ASCII byte (UTF-8); it is the atom that shares lines with the own entry in PreloadMC!Lines
+        self.atoms = {"OWN": o, "SP": b" ", "TAB": b"\t", "HASH": b"#", "FOR": b"\xc3\xa9toile/lib\xc3\xa9.so",
+                      "FOR2": b"/opt/bar/libbar.so.2", "FSN": b"/opt/other/lib/libsnoopy.so", "PFX": o + b".1",
                       "SFX": b"/x" + o, "TXT": b"note", "MEN": b"libsnoopy.so", "CR": b"\r"}
 
     def to_bytes(self, f):
